@@ -12,7 +12,7 @@ def _helper_sum_fact_xk(n, x):
     n_fact = factorial(n)
     k_factorial = scipy.special.factorial(np.arange(n + 1))
     x_power = np.power(abs(x), np.arange(n + 1))
-    res = n_fact * np.dot(x_power, k_factorial)
+    res = n_fact * np.dot(x_power, 1.0 / k_factorial)
 
     return res
 
@@ -32,10 +32,13 @@ def integral_xn_exp_minus_x(n: int, a: float, b: float, alpha: float):
     def helper(u):
         return _helper_sum_fact_xk(n, u * alpha) * np.exp(-abs(u) * alpha) / aux
 
+    # on the negative half-line x^n = (-1)^n |x|^n: the antiderivative in |x| picks up the sign (-1)^(n+1)
+    sign = -1.0 if (b <= 0 and n % 2 == 0) else 1.0
+
     if a == -np.inf:
-        return -helper(b)
+        return -sign * helper(b)
 
     if b == np.inf:
         return helper(a)
 
-    return helper(a) - helper(b)
+    return sign * (helper(a) - helper(b))
